@@ -13,6 +13,16 @@ C10 driver.  Requests (after a `graph …` line; all node ids abstract, costs in
   ksp <ty> <s> <goal|none> <k>             => v:c,…
   msc <ty> <a> <b>                         => <cmp>,<eq>,<partial_cmp>
   msheap <ty> <scores>                     => <scores in pop order>
+  law <name> <detail…>                     => ok | VIOLATED <why>      (a law the harness checks on the implementation
+                                                                         itself; anything but `ok` is a SPECFAIL)
+
+The `graph` line is the view AS THE ALGORITHMS READ IT: `out=` rows come from `edges(a)` with the literal `target()`
+of every edge reference, of the storage type or of an adaptor over it (`enc=<adaptor>(<base>)` on the case line);
+`rows=` repeats them as `target/weight`.  A view that does not describe the abstract graph is a SPECFAIL of the side
+condition, except for the two recorded open findings, classified by their exact shape: D23 (`UndirectedAdaptor::edges`
+lists the edges INTO `a` with `target = a` and a loop twice) and D6 (`MatrixGraph::edges_directed(_, Incoming)` has
+its endpoints swapped, so every edge of `Reversed(&MatrixGraph)` has `target = a`).  The harness sends requests only
+on a view whose rows it found consistent, so nothing is judged on a view that failed.
 
 Verdict = spec-level judge (`Oracle/C10Judge.lean`, against the abstract graph) first, then the exact
 comparison with the mirror model (`Model/C10ShortestPaths.lean`, on the view) restricted to what does
@@ -33,6 +43,43 @@ open PetgraphModel PetgraphModel.MGraph PetgraphModel.Oracle PetgraphModel.SP
 structure DState where
   v : View := default
   ok : Bool := false
+  /-- `enc=` of the case line: `<adaptor>(<base>)` -/
+  enc : String := ""
+
+/-! ### the two open findings that show in a view (classified by their exact shape) -/
+
+def sameBag (a b : List (Nat × Nat)) : Bool :=
+  a.length == b.length && a.all fun x => a.count x == b.count x
+
+/-- `rows=` lists exactly the nodes, and the row of every node `a` is (as a multiset of `(target, weight)`) `want a` -/
+def rowsAre (g : MGraph) (rows : List (Nat × List (Nat × Nat))) (want : Nat → List (Nat × Nat)) : Bool :=
+  rows.length == g.nodes.length && g.nodes.all fun a =>
+    match rows.lookup a with
+    | some r => sameBag r (want a)
+    | none => false
+
+/-- D23: the declared graph is the undirected one, the rows are "out-edges as they are, then every edge into `a` once
+more with `target = a`" (a loop therefore twice) -/
+def d23Shape (g : MGraph) (rows : List (Nat × List (Nat × Nat))) : Bool :=
+  !g.directed && rowsAre g rows fun a =>
+    (g.edges.filter (·.src == a)).map (fun e => (e.tgt, e.w.toNat)) ++
+    (g.edges.filter (·.tgt == a)).map (fun e => (a, e.w.toNat))
+
+/-- D6 under `Reversed`: every edge out of `a` (of the declared, reversed graph) is listed with `target = a` -/
+def d6Shape (g : MGraph) (rows : List (Nat × List (Nat × Nat))) : Bool :=
+  g.directed && rowsAre g rows fun a => (g.edges.filter (·.src == a)).map fun e => (a, e.w.toNat)
+
+def isUaEnc (enc : String) : Bool := enc.startsWith "ua(" && !(enc == "ua(matrix)")
+def isRevMatrixEnc (enc : String) : Bool := enc == "rev(matrix)" || enc == "rev-ef(matrix)" || enc == "ef-rev(matrix)"
+
+/-- the verdict for a view that failed `viewOkB`/`viewOkMB` -/
+def viewFailure (enc : String) (req : List String) (v : View) : String :=
+  let rows := parseAdj ((field? req "rows").getD "-")
+  if isUaEnc enc && d23Shape v.g rows then
+    "KNOWN D23 UndirectedAdaptor::edges(a) lists the edges into a with target = a (a loop twice): the algorithms do not see the undirected graph"
+  else if isRevMatrixEnc enc && d6Shape v.g rows then
+    "KNOWN D6 MatrixGraph::edges_directed(a, Incoming) has source = a, so every edge of Reversed(&MatrixGraph) has target = a"
+  else "SPECFAIL side condition viewOkB/viewOkMB does not hold: edges(a) of this encoding does not describe the abstract graph"
 
 def parseIntPairs (s : String) : Option (List (Nat × Int)) :=
   if s == "-" then some [] else
@@ -101,6 +148,18 @@ def hFun (h : List (Nat × Int)) : Nat → Int := fun x => (h.lookup x).getD 0
 def admissibleB (g : MGraph) (goals : List Nat) (h : List (Nat × Int)) : Bool :=
   h.all (fun vx => decide (0 ≤ vx.2)) && admissible g goals h
 
+/-! ### +infinity: the sentinel of the `f64inf` requests -/
+
+/-- the weight that stands for `+∞` in an `f64inf` request (harness: `INF_SENTINEL`) -/
+def infS : Int := 1099511627776
+
+def isInfTy (ty : String) : Bool := ty == "f64inf"
+
+/-- the implementation's answer with `inf` read as the sentinel -/
+def readInf (impl : String) : String := impl.replace "inf" "1099511627776"
+
+def canonMap (m : List (Nat × Int)) : List (Nat × Int) := m.map fun vc => (vc.1, canonInf infS vc.2)
+
 def overflowMsg (ty : String) : String :=
   s!"SPECFAIL generator left the proved range: a cost sum leaves the range in which + of {ty} is exact"
 
@@ -134,15 +193,15 @@ def showScores (l : List Score) : String := if l.isEmpty then "-" else String.in
 
 def step (d : DState) (req : List String) (impl : String) : DState × String :=
   match req with
-  | "case" :: k :: _ => ({}, s!"case {k}")
+  | "case" :: k :: rest => ({ enc := (field? rest "enc").getD "" }, s!"case {k}")
   | "graph" :: _ =>
     match parseView req with
     | none => (d, "SPECFAIL unparsable graph line")
     | some v =>
-      if !nonNegB v.g then ({ v := v, ok := false }, "SPECFAIL generator left the proved range: negative edge cost")
-      else if !(viewOkB v && viewOkMB v) then ({ v := v, ok := false }, "SPECFAIL side condition viewOkB/viewOkMB does not hold: edges(a) of this encoding does not describe the abstract graph")
-      else if !ixOkB v then ({ v := v, ok := false }, "SPECFAIL side condition ixOkB does not hold: to_index of a node is not below node_bound, or not injective")
-      else ({ v := v, ok := true }, "ok")
+      if !nonNegB v.g then ({ d with v := v, ok := false }, "SPECFAIL generator left the proved range: negative edge cost")
+      else if !(viewOkB v && viewOkMB v) then ({ d with v := v, ok := false }, viewFailure d.enc req v)
+      else if !ixOkB v then ({ d with v := v, ok := false }, "SPECFAIL side condition ixOkB does not hold: to_index of a node is not below node_bound, or not injective")
+      else ({ d with v := v, ok := true }, "ok")
   | ["dij", ty, s, goal] =>
     if !d.ok then (d, "SPECFAIL no checked graph for this request") else
     match costMax ty, s.toNat? with
@@ -153,6 +212,16 @@ def step (d : DState) (req : List String) (impl : String) : DState × String :=
       | none => (d, overflowMsg ty)
       | some model =>
         if impl == "panic" then (d, "SPECFAIL dijkstra panicked") else
+        if isInfTy ty then
+          -- costs with +∞ (sentinel `infS`): only the fully determined call without goal
+          match goal, parseIntPairs (readInf impl) with
+          | none, some m =>
+            let spec := if okDijInf infS d.v.g s m then none else some (explainDijAll d.v.g s m ++ s!" (entries >= {infS} stand for +inf)")
+            match model with
+            | some mm => (d, verdict spec (showIntPairs (sortMap (canonMap mm))) (showIntPairs (sortMap m)))
+            | none => (d, verdict spec "FUEL" impl)
+          | _, _ => (d, s!"SPECFAIL bad request or malformed answer {impl}")
+        else
         match parseIntPairs impl with
         | none => (d, s!"SPECFAIL malformed answer {impl}")
         | some m =>
@@ -181,6 +250,7 @@ def step (d : DState) (req : List String) (impl : String) : DState × String :=
       | none => (d, overflowMsg ty)
       | some res =>
         if impl == "panic" then (d, "SPECFAIL astar panicked") else
+        let impl := if isInfTy ty then readInf impl else impl
         let ans : Option (Option (Int × List Nat)) :=
           if impl == "none" then some none else
           match impl.splitOn "|" with
@@ -189,10 +259,11 @@ def step (d : DState) (req : List String) (impl : String) : DState × String :=
         match ans with
         | none => (d, s!"SPECFAIL malformed answer {impl}")
         | some ans =>
-          let spec := if okAstar d.v.g s goals ans then none else some (explainAstar d.v.g s goals impl)
+          let spec := if (if isInfTy ty then okAstarInf infS d.v.g s goals ans else okAstar d.v.g s goals ans) then none
+            else some (explainAstar d.v.g s goals impl)
           let model := match res with
             | .notFound => "none"
-            | .found c _ => toString c
+            | .found c _ => toString (if isInfTy ty then canonInf infS c else c)
             | .panic => "panic"
             | .fuel => "FUEL"
           let implCost := match ans with | none => "none" | some (c, _) => toString c
@@ -209,6 +280,17 @@ def step (d : DState) (req : List String) (impl : String) : DState × String :=
       | none => (d, overflowMsg ty)
       | some res =>
         if impl == "panic" then (d, "SPECFAIL k_shortest_path panicked") else
+        if isInfTy ty then
+          match goal, parseIntPairs (readInf impl) with
+          | none, some m =>
+            let fuel := oracleFuel d.v k
+            let spec := if okKspInfF infS fuel d.v.g s k m then none else some (explainKsp fuel d.v.g s goal k m ++ s!" (entries >= {infS} stand for +inf)")
+            match res with
+            | .done mm => (d, verdict spec (showIntPairs (sortMap (canonMap mm))) (showIntPairs (sortMap m)))
+            | .panic => (d, verdict spec "panic" impl)
+            | .fuel => (d, verdict spec "FUEL" impl)
+          | _, _ => (d, s!"SPECFAIL bad request or malformed answer {impl}")
+        else
         match parseIntPairs impl with
         | none => (d, s!"SPECFAIL malformed answer {impl}")
         | some m =>
@@ -240,6 +322,8 @@ def step (d : DState) (req : List String) (impl : String) : DState × String :=
         else some s!"BinaryHeap<MinScored> popped {impl} from {showScores xs}: not the ascending order with NaN last"
       (d, verdict spec (showScores (heapSortModel xs)) impl)
     | _, _ => (d, s!"SPECFAIL malformed answer {impl}")
+  | "law" :: _ =>
+    if impl == "ok" then (d, "ok") else (d, s!"SPECFAIL law violated: {String.intercalate " " req} => {impl}")
   | _ => (d, s!"SPECFAIL bad request {req}")
 
 end PetgraphModel.C10
